@@ -100,7 +100,7 @@ type interpreter struct {
 	mapOrder int // 0 insertion order, 1 reverse
 	stats    *WorkerStats
 	errorIface types.Type
-	fnNames  map[*ssa.Function]string
+	fnInfos  map[*ssa.Function]*fnInfo
 	sched    *schedState
 	syncObjs map[*value]*syncObj
 	initing  map[*ssa.Package]bool
@@ -129,6 +129,12 @@ func (i *interpreter) atomicHook(p *value) {
 	if i.atomicAdversary != nil {
 		i.atomicAdversary(p)
 	}
+}
+
+type fnInfo struct {
+	name     string
+	ext      externalFn
+	statName string
 }
 
 type deferred struct {
@@ -558,37 +564,40 @@ func callSSA(i *interpreter, caller *frame, callpos token.Pos, fn *ssa.Function,
 		caller: caller, // for panic/recover
 		fn:     fn,
 	}
-	if fn.Parent() == nil {
-		name, ok := i.fnNames[fn]
-		if !ok {
-			name = fn.String()
-			i.fnNames[fn] = name
+	info := i.fnInfos[fn]
+	if info == nil {
+		info = &fnInfo{}
+		if fn.Parent() == nil {
+			info.name = fn.String()
+			info.ext = externals[info.name]
 		}
-		if i.bypass == fn {
-			i.bypass = nil
-		} else if ext := externals[name]; ext != nil {
-			if i.mode&EnableTracing != 0 {
-				fmt.Fprintln(os.Stderr, "\t(external)")
-			}
-			return ext(fr, args)
-		}
-		if fn.Blocks == nil {
-			ensureBuilt(fn)
-		}
-		if fn.Blocks == nil {
-			panic(engineError("no code for function: " + name))
-		}
-	} else if fn.Blocks == nil {
+		// make sure the owning package is completely built before running any of its
+		// code (another worker may be in the middle of building it)
 		ensureBuilt(fn)
-	}
-	if i.ps != nil {
 		pk := fn.Pkg
 		if pk == nil && fn.Origin() != nil {
 			pk = fn.Origin().Pkg
 		}
 		if pk != nil && pk.Pkg != nil && strings.HasPrefix(pk.Pkg.Path(), "github.com/MichaelMure/git-bug") {
-			i.stats.Funcs[stripTypeArgs(fn.String())]++
+			info.statName = stripTypeArgs(fn.String())
 		}
+		i.fnInfos[fn] = info
+	}
+	if info.ext != nil {
+		if i.bypass == fn {
+			i.bypass = nil
+		} else {
+			if i.mode&EnableTracing != 0 {
+				fmt.Fprintln(os.Stderr, "\t(external)")
+			}
+			return info.ext(fr, args)
+		}
+	}
+	if fn.Blocks == nil {
+		panic(engineError("no code for function: " + fn.String()))
+	}
+	if info.statName != "" && i.ps != nil {
+		i.stats.Funcs[info.statName]++
 	}
 	i.depth++
 	if i.depth > 3000 {
